@@ -102,11 +102,39 @@ def gen_world(rng: core.Rng, nulls: bool) -> List[dict]:
         c = rng.choice(["Body", "Body", "Handle", "Container"])
         wref = None if nulls and rng.chance(0.3) else {"ref": rng.choice(worlds)}
         bodies.append(add(c, {"name": rng.choice(STRS), "size": rng.randint(0, 3), "world": wref}))
+        if rng.chance(0.3):                                   # a second body equal to it by value
+            bodies.append(add(c, dict(objs[-1]["f"])))
     for _ in range(rng.randint(2, 5)):
         c = rng.choice(["FixedConnection", "PrismaticConnection", "Connection"])
         wref = None if nulls and rng.chance(0.3) else {"ref": rng.choice(worlds)}
         add(c, {"parent": {"ref": rng.choice(bodies)}, "child": {"ref": rng.choice(bodies)}, "world": wref})
+    # equality-join structure: Fixed(Y->U) has two prismatic partners ending in Y, Fixed(U->X) has none, Fixed(Z->U) has one
+    wj = {"ref": worlds[0]}
+    X, Y, Z, U = (add("Body", {"name": n, "size": sz, "world": wj}) for n, sz in (("jx", 6), ("jy", 5), ("jz", 4), ("ju", 7)))
+    for c, a, b in (("PrismaticConnection", X, Y), ("PrismaticConnection", Z, Y), ("FixedConnection", Y, U),
+                    ("FixedConnection", U, X), ("PrismaticConnection", U, Z), ("FixedConnection", Z, U)):
+        add(c, {"parent": {"ref": a}, "child": {"ref": b}, "world": wj})
     return objs
+
+
+def join_queries() -> List[dict]:
+    """equality joins between a fixed and a prismatic connection, alone and next to one comparison that isolates a single
+    selected entity (sizes 4..7 are unique to the join structure of gen_world), each as an(...) and as the(...)"""
+    out = []
+    for sel_c, c2 in (("FixedConnection", "PrismaticConnection"), ("PrismaticConnection", "FixedConnection")):
+        sel, v2 = VARS[sel_c][0], VARS[c2][0]
+        for r1 in ("parent", "child"):
+            for r2 in ("parent", "child"):
+                ej = ["cmp", "==", ["attr", sel, [r1]], ["attr", v2, [r2]]]
+                conds = [ej, ["cmp", "==", ["attr", v2, [r2]], ["attr", sel, [r1]]]]
+                for end in ("parent", "child"):
+                    for sz in (4, 5, 6, 7):
+                        conds.append(["and", ej, ["cmp", "==", ["attr", sel, [end, "size"]], ["lit", sz]]])
+                    conds.append(["and", ["cmp", ">=", ["attr", sel, [end, "size"]], ["lit", 4]], ej])
+                for c in conds:
+                    for the in (False, True):
+                        out.append({"the": the, "sel": sel, "vars": {sel: sel_c, v2: c2}, "cond": c})
+    return out
 
 
 class LiveWorld:
@@ -473,7 +501,11 @@ def gen_query(rng: core.Rng, spec: List[dict], mode: str) -> dict:
         ej = ["cmp", "==", ["attr", sel, r1], ["attr", v2, r2]] if rng.chance(0.6) else ["cmp", "==", ["attr", v2, r2], ["attr", sel, r1]]
         plain = [x for x in chains(sel_c) if isinstance(x[1], str) and len(x[0]) == 1]
         r = rng.random()
-        if r < 0.5 or not plain:
+        if rng.chance(0.25):
+            r1b = rng.choice([x for x in chains(sel_c) if not isinstance(x[1], str) and len(x[0]) == 1])[0]
+            r2b = rng.choice([x for x in chains(c2) if not isinstance(x[1], str) and len(x[0]) == 1])[0]
+            c = [rng.choice(["and", "or"]), ej, ["cmp", "==", ["attr", sel, r1b], ["attr", v2, r2b]]]
+        elif r < 0.5 or not plain:
             c = ej
         else:
             ch, k = rng.choice(plain)
@@ -514,7 +546,12 @@ def sweep_queries(full: bool) -> List[dict]:
 
 
 # ------------------------------------------------------------------ decision
-KNOWN_BITS = {1: "K_othervar", 2: "K_null", 4: "K_relop", 16: "K_strop", 32: "K_varoperand", 64: "K_noneorder"}
+# classes computed in Coq (EqlToSql.classes).  OPEN: a listed open finding may explain a memory/SQL difference there.
+# The others were repaired by fix: commits (now rejections) -- a difference explained only by them is a VIOLATION.
+ALL_BITS = {1: "K_othervar", 2: "K_null", 4: "K_relop", 16: "K_strop", 32: "K_varoperand", 64: "K_noneorder",
+            128: "K_strtruth", 256: "K_eqjoin_dropped", 512: "K_valueeq"}
+OPEN_BITS = {2: "K_null", 128: "K_strtruth", 256: "K_eqjoin_dropped", 512: "K_valueeq"}
+KNOWN_BITS = OPEN_BITS
 
 
 def prop_agree(q: dict, mem: list, sql: list, in_f: bool) -> bool:
@@ -522,9 +559,9 @@ def prop_agree(q: dict, mem: list, sql: list, in_f: bool) -> bool:
         return True                                   # rejected with EQLTranslationError: allowed
     if sql[0] == [2]:
         return False                                  # another exception escaped the translator
-    if q["the"] or in_f:
-        return mem[0] == sql[0]
-    return mem[1] == sql[1]
+    # rows are compared as a BAG (the() through its outcome): every attribute of a non-selected variable is rejected now,
+    # so whatever is accepted has one row per satisfying binding on both sides (C07_agree states list equality)
+    return mem[0] == sql[0]
 
 
 def snippet(q: dict, spec: List[dict]) -> str:
@@ -560,7 +597,7 @@ def run(tier: str, seed: int, replay=None) -> int:
     rep = Report(PROP, tier, seed, "other")
     rep.trusted = core.COQ_TRUSTED + [
         "Orm/SqlAlg.v `sem`: the meaning of the emitted statement on SQLite (inner joins as filtered products, NULL -> unknown, "
-        "LIKE case-insensitive) is a model, compared with SQLite on every case, not proved",
+        "instr, WHERE col) is a model, compared with SQLite on every case, not proved",
         "Orm/EqlToSql.v `translate`: hand-written restatement of EQLTranslator, tied by differential execution through eql_to_sql",
         "Orm/EqlToSqlSpec.v `answers`: the in-memory meaning of a query under Python comparison semantics, compared with query.evaluate()",
         "harness/c07.py: schema table of the dataset classes, world persistence through to_dao, query builder, outcome canonicaliser",
@@ -572,9 +609,11 @@ def run(tier: str, seed: int, replay=None) -> int:
     rep.rule = ("corpus first; then per world (random objects of Position/Position4D/Orientation/Pose/World/Body/Handle/Container/"
                 "Connection/Fixed/Prismatic, shared references, None in nullable places in half of the worlds) random conditions "
                 "of depth 0-3 through the public EQL API: 55% restricted to the constructs of F07, 45% with second variables, "
-                "relationship-valued operands, None literals, not_, LIKE/instr, bare attribute, bare variable; 15% the(...); plus on two worlds "
+                "relationship-valued operands, None literals, not_, instr, bare attribute, bare variable, one or two equality joins; 15% the(...); plus on two worlds "
                 "(one without, one with None) an exhaustive sweep of every single comparison chain-op-literal / chain-op-chain, IN lists and "
                 "the(==) of every variable type (thorough: all literals, and every and_/or_ of two comparisons). "
+                "In every world a fixed connection with two, one with one and one with no prismatic partner, and all equality joins fixed.x == prismatic.y "
+                "(both orders, alone and next to a comparison isolating one entity) as an(...) and the(...). Rows compared as bags. "
                 "distinct = distinct (query, world); non-trivial = result neither empty nor the whole domain, or a the()/error outcome")
     ok_spec, log = core.coq_make(["Base/Sx.vo", "Orm/EqlToSqlSpec.vo"])
     rep.oblige("build:spec", ok_spec, "" if ok_spec else core.first_error(log))
@@ -608,6 +647,8 @@ def run(tier: str, seed: int, replay=None) -> int:
         for wn in range(nworlds):
             wr = rng.fork(wn)
             wi = add_world(gen_world(wr, nulls=(wn % 2 == 1)))
+            for q in join_queries():                           # equality joins with 0 / 1 / 2 partners, an(...) and the(...)
+                cases.append({"q": q, "w": wi, "src": "gen:join"})
             if wn < 2:                                         # exhaustive small scope on one world without and one with None
                 for q in sweep_queries(tier != "quick"):
                     cases.append({"q": q, "w": wi, "src": "gen:sweep"})
@@ -636,6 +677,8 @@ def run(tier: str, seed: int, replay=None) -> int:
         dist[k] = dist.get(k, 0) + 1
 
     known_instances: Dict[str, int] = {}
+    by_class: Dict[str, int] = {}
+    rejected_by_class: Dict[str, int] = {}
     viol = []
     model_mismatch = []
     spec_mismatch = []
@@ -667,19 +710,40 @@ def run(tier: str, seed: int, replay=None) -> int:
             bump("whole_domain")
         if q["the"]:
             bump("the")
-        for b, nme in KNOWN_BITS.items():
+        if len(q["vars"]) > 1 and sql[0] != [1]:
+            bump("join_accepted")
+            if mem[0][0] == 0 and len(mem[0][1]) != len(set(mem[0][1])):
+                bump("join_entity_with_2+_partners")
+            if mem[0] == [6] and q["the"]:
+                bump("join_the_multiple")
+            if mem[0] == [5] and q["the"]:
+                bump("join_the_none")
+            if mem[0] == [0, []]:
+                bump("join_no_partner_at_all")
+            if spec is not None and spec != mem:
+                bump("join_spec_differs_from_memory")
+        for b, nme in ALL_BITS.items():
             if mask & b:
                 bump(nme)
         if mask & 8:
             bump("K_not")
         agree = prop_agree(q, mem, sql, in_f)
         bump("agree" if agree else "disagree")
+        if not agree:
+            if in_f:
+                by_class["in_F07"] = by_class.get("in_F07", 0) + 1
+            names = [n for bb, n in ALL_BITS.items() if mask & bb] or ["(no class)"]
+            for n in names:
+                by_class[n] = by_class.get(n, 0) + 1
+        elif sql[0] == [1]:
+            for n in [n for bb, n in ALL_BITS.items() if mask & bb]:
+                rejected_by_class[n] = rejected_by_class.get(n, 0) + 1
         unmod = model is not None and model[0] == [9]
         if unmod:
             bump("outside_model")
         if model is not None and not unmod and model != sql:
             model_mismatch.append(c)
-        if spec is not None and (spec != mem if (in_f or q["the"]) else spec[1] != mem[1]):
+        if spec is not None and spec != mem:
             spec_mismatch.append(c)
         if agree:
             continue
@@ -739,8 +803,16 @@ def run(tier: str, seed: int, replay=None) -> int:
             if not any(cexp is v[0] for v in viol):
                 viol.append((cexp, "corpus case that must agree"))
 
+    import os
+    if os.environ.get("C07_DUMP"):      # debugging aid: every memory/SQL disagreement of this run
+        (core.WORK / PROP).mkdir(parents=True, exist_ok=True)
+        (core.WORK / PROP / "disagreements.json").write_text(json.dumps(
+            [{"q": c["q"], "mem": c["mem"], "sql": c["sql"], "detail": c["detail"], "in_f": c["in_f"], "mask": c["mask"]}
+             for c in cases if not prop_agree(c["q"], c["mem"], c["sql"], c["in_f"])], indent=0))
     rep.extra["distribution"] = dict(sorted(dist.items()))
     rep.extra["known_finding_instances"] = known_instances
+    rep.extra["disagreements_by_class"] = dict(sorted(by_class.items()))       # memory vs SQL, whatever the model says
+    rep.extra["rejected_by_class"] = dict(sorted(rejected_by_class.items()))
     rep.samples = [{"q": c["q"], "mem": c["mem"], "sql": c["sql"], "in_F07": c["in_f"], "classes": c["mask"]}
                    for c in cases[len(corpus_cases):][:: max(1, len(cases) // 6)]][:6]
     seen = set()
